@@ -64,9 +64,15 @@ def run(ctx: Ctx) -> None:
         ctx.ob("R10.2", f"lexer:LexerTokenStream._fill_tokbuf|`{short(n.stmt)}` stamped", not bad, msg=bad[0][2] if bad else "", node=n.stmt, mod=lex)
     cl = lex.func("PlyLexer.current_location")
     rets = [s for s in walk_local(cl) if isinstance(s, ast.Return)]
-    ok = len(rets) == 1 and isinstance(rets[0].value, ast.Call) and norm(rets[0].value.func) == "Location" and len(rets[0].value.args) == 2
+    ok = len(rets) == 1 and isinstance(rets[0].value, ast.Call) and norm(rets[0].value.func) == "Location"
     if ok:
-        a0, a1 = rets[0].value.args
+        # positional or by field name (Location is the (filename, lineno) named tuple)
+        call_ = rets[0].value
+        byname = {k.arg: k.value for k in call_.keywords}
+        a0 = call_.args[0] if len(call_.args) > 0 else byname.get("filename")
+        a1 = call_.args[1] if len(call_.args) > 1 else byname.get("lineno")
+        ok = a0 is not None and a1 is not None and len(call_.args) + len(call_.keywords) == 2
+    if ok:
         atoms: Dict[str, int] = {}
         linear_form(a1, atoms)
         atoms = {k: v for k, v in atoms.items() if v != 0}
@@ -95,6 +101,23 @@ def run(ctx: Ctx) -> None:
     offs = [s for s in walk_local(fn) if isinstance(s, ast.Assign) and any(attr_chain(t) == ("self", "line_offset") for t in s.targets)]
     names = [s for s in walk_local(fn) if isinstance(s, ast.Assign) and any(attr_chain(t) == ("self", "filename") for t in s.targets)]
     mvars = {t.id for s in walk_local(fn) if isinstance(s, ast.Assign) and isinstance(s.value, ast.Call) and (attr_chain(s.value.func) or ("",))[0] == "_line_re" for t in s.targets if isinstance(t, ast.Name)}
+    # which groups of _line_re are the number and the quoted name (whatever their numbers are)
+    lr = ctx.repo.folder("lexer").get("_line_re")
+    gnum = gname = None
+    try:
+        tree = sre_parse.parse(lr.pattern, lr.flags)
+        last = None
+        for op, av in tree:
+            if op == sre_c.SUBPATTERN and av[0] is not None:
+                body = list(av[3])
+                if len(body) == 1 and body[0][0] == sre_c.MAX_REPEAT and body[0][1][2][0][0] == sre_c.IN and any(o == sre_c.CATEGORY and a_ == sre_c.CATEGORY_DIGIT for o, a_ in body[0][1][2][0][1]):
+                    gnum = av[0]
+                if last == (sre_c.LITERAL, ord('"')):
+                    gname = av[0]
+            last = (op, av)
+    except Exception:
+        pass
+    gok = gnum is not None and gname is not None and gnum != gname
     ok = len(offs) == 1 and len(mvars) == 1
     why = "the #line branch no longer has exactly one line_offset store from a _line_re match"
     if ok:
@@ -102,33 +125,15 @@ def run(ctx: Ctx) -> None:
         atoms = {}
         linear_form(offs[0].value, atoms)
         atoms = {k: v for k, v in atoms.items() if v != 0}
-        want = {"1": 1, "self.lex.lineno": 1, f"int({m}.group(2))": -1}
+        want = {"1": 1, "self.lex.lineno": 1, f"int({m}.group({gnum}))": -1}
         ok = atoms == want
-        why = f"line_offset is computed as {norm(offs[0].value)}: with current_location() = lineno - line_offset the line after '#line N' must report N, which needs physical lineno - N + 1"
+        why = f"line_offset is computed as {norm(offs[0].value)}: with current_location() = lineno - line_offset the line after '#line N' must report N, which needs physical lineno - N + 1 (N = group {gnum} of the match)"
     ctx.ob("R10.3", "lexer:PlyLexer.t_PP_DIRECTIVE|line_offset arithmetic", ok, msg=why, node=offs[0] if offs else fn, mod=lex)
-    ok = len(names) == 1 and len(mvars) == 1 and norm(names[0].value) == f"{next(iter(mvars))}.group(3)"
+    ok = len(names) == 1 and len(mvars) == 1 and norm(names[0].value) == f"{next(iter(mvars))}.group({gname})"
     same = ok and offs and lex.parent.get(names[0]) is lex.parent.get(offs[0])
     ctx.ob("R10.3", "lexer:PlyLexer.t_PP_DIRECTIVE|file name from the quoted group, same branch", bool(same),
-           msg="the file name is not taken from group 3 of the same #line match, or not on the branch that re-bases the line", node=names[0] if names else fn, mod=lex)
-    # group structure of _line_re
-    lr = ctx.repo.folder("lexer").get("_line_re")
-    gok = False
-    try:
-        tree = sre_parse.parse(lr.pattern, lr.flags)
-        groups = {}
-        prev_lit = {}
-        last = None
-        for op, av in tree:
-            if op == sre_c.SUBPATTERN:
-                groups[av[0]] = list(av[3])
-                prev_lit[av[0]] = last
-            last = (op, av)
-        g2 = groups.get(2, [])
-        gok = (len(g2) == 1 and g2[0][0] == sre_c.MAX_REPEAT and g2[0][1][2][0][0] == sre_c.IN and any(o == sre_c.CATEGORY and a == sre_c.CATEGORY_DIGIT for o, a in g2[0][1][2][0][1])
-               and 3 in groups and prev_lit.get(3) == (sre_c.LITERAL, ord('"')))
-    except Exception:
-        gok = False
-    ctx.ob("R10.3", "lexer:_line_re|group 2 is the number, group 3 the quoted name", gok, msg=f"_line_re = {lr.pattern!r} no longer has (digits) as group 2 and a quoted group 3", node=lex.tree, mod=lex)
+           msg=f"the file name is not taken from the quoted group ({gname}) of the same #line match, or not on the branch that re-bases the line", node=names[0] if names else fn, mod=lex)
+    ctx.ob("R10.3", "lexer:_line_re|one group is the number, another the quoted name", gok, msg=f"_line_re = {lr.pattern!r} no longer has a (digits) group and a quoted group", node=lex.tree, mod=lex)
     ctx.ob("R10.3", "lexer:PlyLexer.t_PP_DIRECTIVE|directive does not consume its newline", not pp.auto(lm.reflags).can_contain("\n"),
            msg="the directive rule can match a newline: the line after '#line N' would be counted from the wrong line", node=fn, mod=lex)
 
